@@ -14,12 +14,13 @@ PARTITION_TABLE = {
         # last_offset = base_offset + (messages_count - 1); base = current_offset + 1 | 0
         APPEND: ['((phi{($u32 + 1) | 0} - 1) + phi{(1 + self.current_offset) | 0})'],
         PURGE: ['0'],
-        LOAD: ['[T]::last(partition.segments).current_offset'],          # recovered from the last segment
+        LOAD: ['[T]::last(partition.segments).current_offset',          # recovered from the last segment
+               '([T]::last(partition.segments).start_offset - 1)'],   # empty last segment that does not start at 0 (everything before it was deleted)
     },
     'should_increment_offset': {
         APPEND: ['1'],
         PURGE: ['0'],
-        LOAD: ['PartialOrd::gt($Segment.size_bytes, {closure#0})'],   # "some segment holds bytes"
+        LOAD: ['PartialOrd::gt($Segment.size_bytes, {closure#0})', '1'],   # "some segment holds bytes" | empty last segment with start offset > 0
     },
 }
 SEGMENT_TABLE = {
